@@ -153,7 +153,7 @@ func h16a(K int) {
 }
 
 func H16a_q() { h16a(4) }
-func H16a_t() { h16a(6) }
+func H16a_t() { h16a(5) }
 
 // H16b: each traced operation completes its trace exactly once and records no event after completion,
 // for every order of builder events.
